@@ -1220,6 +1220,9 @@ fn mode_compose(r: &mut Runner) {
             } else {
                 drop(a2.clone());
             }
+            // nothing must happen now; give a wrongly triggered stop the time to take effect
+            settle();
+            std::thread::sleep(std::time::Duration::from_millis(20));
             for k in 0..3 {
                 if a.emit(&m("a", k)).is_ok() {
                     expect_a.push(m("a", k));
